@@ -176,6 +176,45 @@ class FactoryFold:
         self.classes = 0
 
 
+def _probe_structure_wrapper(it, wrapper, gen, attrs_):
+    """Call the wrapper (E5) on probe payloads: the declared wire names, plus undeclared keys -- a fresh name and the
+    snake_case / trailing-underscore spellings of the attributes.  -> None when the generated function receives every
+    declared key with its value and no undeclared key is turned into a declared one, else the reason."""
+    from .microeval import Record, Raised
+    ov = gen.fields["overrides"]
+    wire = {}
+    for a in attrs_:
+        n_ = a.fields["name"]
+        o = ov.get(n_)
+        rn = o.fields.get("rename") if isinstance(o, Record) else None
+        wire[n_] = rn or n_
+    declared = {w_: f"<{w_}>" for w_ in wire.values()}
+    undeclared = {"xFreshUndeclared": "<fresh>", "x_fresh_undeclared": "<fresh2>"}
+    for n_, w_ in wire.items():
+        for alias in (n_, n_ + "_", w_ + "_", w_.upper()):
+            if alias not in declared:
+                undeclared[alias] = f"<undeclared {alias}>"
+    for label, payload in (("declared keys only", dict(declared)), ("declared and undeclared keys", {**declared, **undeclared}),
+                           ("undeclared keys only", dict(undeclared))):
+        given = dict(payload)
+        try:
+            res = wrapper(given, gen.fields["cls"])
+        except Raised as e:
+            return f"the wrapper around the generated structure function raises {e.exc_name} for a payload with {label}"
+        if not (isinstance(res, Record) and res.cls_name == "generated_result" and res.fields["fn"] is gen):
+            return "the wrapper around the generated structure function does not return that function's result"
+        got = res.fields["payload"]
+        if not isinstance(got, dict):
+            return "the wrapper hands the generated structure function something that is not the payload mapping"
+        for w_ in declared:
+            want = payload.get(w_, "<absent>")
+            have = got.get(w_, "<absent>")
+            if want != have:
+                return (f"the wrapper around the generated structure function changes what the declared key {w_!r} holds "
+                        f"(payload with {label}: {want} -> {have}): an undeclared key is read as a declared one")
+    return None
+
+
 def fold_factories(im) -> FactoryFold:
     """`im` is anything with `.types` (TypesModule) and `.hooks` (HooksModule): an Image or a SiteAnalysis."""
     from .microeval import Interp, Record, ClassRef, ModuleRef, Closure, Raised
@@ -199,9 +238,15 @@ def fold_factories(im) -> FactoryFold:
         types_mod = ModuleRef("types", interp=tit)
         captured = {}
 
+        made = {}
+
         def mk_gen(direction):
             def gen(cls, conv, **kw):
-                return Record("generated_fn", {"direction": direction, "cls": cls, "converter": conv, "overrides": kw})
+                r_ = Record("generated_fn", {"direction": direction, "cls": cls, "converter": conv, "overrides": kw})
+                # calling the generated function (a wrapper may): records what it was handed
+                r_.fields["__call__"] = ("host", lambda payload, *a_, **k_: Record("generated_result", {"fn": r_, "payload": payload}))
+                made[(direction, getattr(cls, "name", None))] = r_
+                return r_
             return ("host", gen)
 
         def fields(cls):
@@ -254,11 +299,26 @@ def fold_factories(im) -> FactoryFold:
             if not (isinstance(pred, tuple) and pred[0] == "host"):
                 out.problems.append((f"{direction}-factory", "factory predicate is not attrs.has", reg.lineno))
             for cname in order:
+                # the class object of types.py itself (identity tests such as is_keyword_class(cls) hold for it)
+                cref = tit.globals.get(cname)
+                if not isinstance(cref, ClassRef):
+                    cref = ClassRef(cname, "attrs")
                 try:
-                    r = it.apply(factory, [ClassRef(cname, "attrs")], {})
+                    r = it.apply(factory, [cref], {})
                 except Raised as e:
                     out.problems.append((f"{direction}-factory:{cname}", f"factory raises {e.exc_name} for {cname}", reg.lineno))
                     continue
+                if direction == "structure" and isinstance(r, Closure):
+                    # a wrapper around the generated function that keeps its `.overrides`: transparent exactly when it
+                    # hands the payload on unchanged (as far as the declared wire names go) whatever else the payload has
+                    g_ = made.get((direction, cname))
+                    if g_ is not None and r.__dict__.get("fattrs", {}).get("overrides") is g_.fields["overrides"]:
+                        why = _probe_structure_wrapper(it, r, g_, fields_of[cname])
+                        if why is None:
+                            r = g_
+                        else:
+                            out.problems.append((f"structure-factory:{cname}:wrapper", why, reg.lineno))
+                            continue
                 if not (isinstance(r, Record) and r.cls_name == "generated_fn"):
                     if direction == "structure":
                         out.problems.append((f"{direction}-factory:returns",
